@@ -321,12 +321,12 @@ def _pool_init() -> None:
     _worker_env()
 
 
-def _worker_enum(args: T.Tuple[str, T.List[Node], int, int, int, int, int]) -> T.List[T.Dict[str, T.Any]]:
+def _worker_enum(args: T.Tuple[str, T.List[Node], int, int, T.Any, int, int]) -> T.List[T.Dict[str, T.Any]]:
     """All programs prefix + n statements of the alphabet with codes lo..hi (table = prefix + alphabet)."""
     label, table, npre, n, lo, hi, af = args
     k = len(table) - npre
     res = []
-    for code in range(lo, hi):
+    for code in (range(lo, hi) if isinstance(lo, int) else lo):       # a range of codes, or an explicit list (sampled bound)
         idxs = list(range(npre))
         c = code
         for _ in range(n):
@@ -610,6 +610,9 @@ def start_model_checking(tp: ThreadPoolExecutor, quick: bool) -> T.Tuple[T.Dict[
         exports[f'paths{ml}{bs}'] = tp.submit(run_tlc, FAM, 'LangObjPaths_MC',
                                               cfg_text=cfg_text({'MaxLen': ml, 'WithBackslash': bs, 'Explore': False}, ['AsPosixIdempotent'], 'EmitSpace'),
                                               collect=['space.json'], timeout=1800, heap='2g', workers=1, allow_violation=False)
+    if os.environ.get('X04_NOMC'):                 # debugging aid: only drive the implementation
+        return exports, runs, {'statements': nlen, 'path_strings': [{'max_length': ml, 'backslash': bs} for ml, bs in pruns],
+                               'sample_above': {} if quick else {'dis': 300000}}
     for area, n in nlen.items():
         runs[f'LangObj_MC[{area},MaxLen={n}]'] = tp.submit(
             run_tlc, FAM, 'LangObj_MC', cfg_text=cfg_text({'MaxLen': n, 'Area': area}, MC_INVARIANTS, 'EmitSpace'),
@@ -622,7 +625,8 @@ def start_model_checking(tp: ThreadPoolExecutor, quick: bool) -> T.Tuple[T.Dict[
     runs[f'LangObjFeature_MC[MaxChain={mchain}]'] = tp.submit(
         run_tlc, FAM, 'LangObjFeature_MC', cfg_text=cfg_text({'MaxChain': mchain}, FEAT_INVARIANTS, None),
         timeout=3600, heap='4g', workers=2, allow_violation=False)
-    return exports, runs, {'statements': nlen, 'path_strings': [{'max_length': ml, 'backslash': bs} for ml, bs in pruns]}
+    return exports, runs, {'statements': nlen, 'path_strings': [{'max_length': ml, 'backslash': bs} for ml, bs in pruns],
+                           'sample_above': {} if quick else {'dis': 300000}}
 
 
 def S(s: str) -> Node:
@@ -699,9 +703,18 @@ def main(chk: Check) -> None:
             k = len(sp['alphabet'])
             cases: T.List[T.Dict[str, T.Any]] = []
             jobs = []
+            nsampled = 0
             for af in sp['afs']:
                 for n in range(0, impl_n[area] + 1):
                     total = k ** n
+                    cap = bounds['sample_above'].get(area)
+                    if cap is not None and total > cap:
+                        # the longest programs of this alphabet: a seeded sample instead of all of them
+                        rnd = random.Random(chk.seed * 977 + n * 31 + af)
+                        codes = sorted(rnd.sample(range(total), cap))
+                        nsampled += cap
+                        jobs += [('A:' + area, table, npre, n, codes[lo:lo + 2000], 0, af) for lo in range(0, cap, 2000)]
+                        continue
                     step = max(1, min(4000, total // (common.NCPU * 2) + 1))
                     jobs += [('A:' + area, table, npre, n, lo, min(total, lo + step), af) for lo in range(0, total, step)]
             for part in ex.map(_worker_enum, jobs):
@@ -714,7 +727,8 @@ def main(chk: Check) -> None:
             jd.submit(table, cases, 'A:' + area)
             rnd = random.Random(chk.seed * 31 + len(area))
             cli_pool.append((table, rnd.sample(cases, min(len(cases), max(2, ncli // 8)))))
-            chk.extra.setdefault('space_sizes', {})[area] = sum((k ** n) for n in range(0, impl_n[area] + 1)) * len(sp['afs'])
+            chk.extra.setdefault('space_sizes', {})[area] = {'model': sum((k ** n) for n in range(0, impl_n[area] + 1)) * len(sp['afs']),
+                                                             'sampled_at_longest_length': nsampled}
         # (A) path helpers
         strings = sorted({tuple(x) for name, sp in spaces.items() if name.startswith('paths') for x in sp['strings']})
         ptable, pprogs = path_space([list(x) for x in strings], quick)
@@ -743,6 +757,8 @@ def main(chk: Check) -> None:
         cli_sample(jd, cli_pool)
         # the model-checking runs that went on meanwhile
         for name, fut in mc_runs.items():
+            if fut is None:
+                continue
             res = fut.result()
             chk.add_tlc(name, res)
             if 'space.json' in res.collected:
